@@ -205,6 +205,9 @@ def check(cx):
         cx.verdict(p.all_success_paths_call(f, p.must_reach_set({"schema::catalog::Catalog::update_relation"}), 0), r5, "insert", f.where(),
                    "update_relation on every success path", "INSERT can succeed without persisting the next row id: row ids repeat after reopen")
 
+    from . import c11
+    cx.include(c11, {"C11.3"}, "C09.7", "shared with C11.3: a page handed out by allocate_page (fresh or recycled) is marked dirty and cached on every path, so that it reaches the data file at the next checkpoint/close", floor=4)
+
     # ---- thorough: no-flush configuration -------------------------------------------------------------------
     if cx.tier == "thorough" and "no-flush" in cx.progs:
         r6 = cx.rule("C09.6", "CONFIG: under --features no-flush the Drop impl is absent (documented: recovery replays "
